@@ -129,6 +129,7 @@ func (ba *badgerBatch) VisitCleanNode(ptr *node.Pointer, parent *node.Pointer) e
 	wasRootNode := iptr.isRoot()
 	isRootNode := parent == nil
 	if wasRootNode != isRootNode {
+		ba.trackDbPtr(ptr)
 		ptr.DBInternal = nil
 		needsPutNode = true
 
@@ -151,6 +152,7 @@ func (ba *badgerBatch) VisitCleanNode(ptr *node.Pointer, parent *node.Pointer) e
 		}
 	}
 	if wasInvalid && !isInvalid {
+		ba.trackDbPtr(ptr)
 		ptr.DBInternal = nil
 		needsPutNode = true
 
@@ -171,6 +173,12 @@ func (ba *badgerBatch) VisitDirtyNode(ptr *node.Pointer, parent *node.Pointer) e
 	return ba.refreshDbPtr(ptr, parent)
 }
 
+// trackDbPtr remembers the current internal database pointer of the given pointer so that it can be
+// restored in case the batch is not committed.
+func (ba *badgerBatch) trackDbPtr(ptr *node.Pointer) {
+	ba.dbPtrChanges = append(ba.dbPtrChanges, dbPtrChange{ptr: ptr, prev: ptr.DBInternal})
+}
+
 // refreshDbPtr recomputes the data for the internal database pointer.
 func (ba *badgerBatch) refreshDbPtr(ptr *node.Pointer, parent *node.Pointer) error {
 	if ptr.DBInternal == nil {
@@ -185,6 +193,7 @@ func (ba *badgerBatch) refreshDbPtr(ptr *node.Pointer, parent *node.Pointer) err
 			index = ba.lastIndex.Add(1)
 		}
 
+		ba.trackDbPtr(ptr)
 		ptr.DBInternal = &dbPtr{
 			version: ba.version,
 			index:   index,
